@@ -17,7 +17,9 @@ from ..core import dav, davsys
 from ..core.davsys import Config, DavSys
 from ..core.report import Reporter
 
-CHARS = {"space": " ", "percent": "%", "hash": "#", "question": "?", "semicolon": ";", "plus": "+", "e-acute": "é", "kanji": "日"}
+CHARS = {"space": " ", "percent": "%", "hash": "#", "question": "?", "semicolon": ";", "plus": "+", "e-acute": "é", "kanji": "日",
+         # (names that Unicode normalisation would change: a decomposed e-acute, the ANGSTROM SIGN)
+         "e-combining-acute": "e\u0301", "angstrom-sign": "\u212b"}
 
 
 def names(tier):
